@@ -24,6 +24,9 @@ BUILT = {
  "C08": ("exploration", "runtime monitor: relational trace comparison of each group member across standalone, three serial and three breadth-first CsvPaths methods in several group orders (LineEvent hook keyed by CsvPath instance)",
          "For every generated group and order, each member's per-line trace, final variables, counters, validity, stop state, printouts, errors and collected lines must equal its standalone run; the lines next_paths / next_by_line / collect_by_line hand to the caller must equal the concatenation resp. per-line union / intersection of the members' own decisions.",
          "the standalone CsvPath run is the reference; members use no cross-path signals, references or rewriting functions", "DESIGN.md#c08"),
+ "C09": ("exploration", "runtime monitor: archive consistency checker run after every real named-paths run - disk (manifests, vars/errors/meta json, data/unmatched csv, printouts) vs in-memory Results vs lines the LineEvent hook saw each member collect; fingerprints recomputed from bytes on disk",
+         "Generated groups (identities or index names, unmatched-mode keep, named printers, hostile cell text, runs ending by exhaustion/stop/fail) are run through all six methods and the four representations are compared field by field.",
+         "in-memory Result objects and LineEvents are the reference; stdlib csv/json/hashlib trusted", "DESIGN.md#c09"),
  "C13": ("exploration", "runtime monitor: trace-specification checking ('no component / line evaluated after stop or skip fires', 'advance(n) lines have no effects', 'last() fires once on the final line') on LineEvent + EvalEvent hooks, plus the reference evaluator",
          "Systematic product of control form x position x firing line x scan window x blank layout (about 20k real runs) plus random two-control / onmatch programs; per line the pushes that happened, the components evaluated, matches and counters are compared with the documented behaviour. Known findings F9/F9b attributed by exact emulation.",
          "reference semantics from stop.md/advance.md/last.md; A1 corner (scan window ending on a blank record) not decided", "DESIGN.md#c13"),
